@@ -1734,6 +1734,24 @@ def a_offsets( ctx ):
                         res.bad( src, c, c.args[0], 'each offset in the table must be 2 + 2*N + (sum of the preceding message lengths): the first embedded message starts right after the count and the N offsets' )
     if n < 1:
         raise AnalysisError( 'Message_Router.produce: no offset-table emitter found' )
+    # the running offset is the length of what is emitted, and what is emitted for a member is what the member's producer rendered: inside
+    # the loops over the members the local that receives <producer>( member ) / the member's octets is never changed afterwards ( padded,
+    # trimmed ).  The receiving side cuts the members at the offsets and lets each member's parser run to the end of its slice: an extra
+    # octet behind a Write Tag Fragmented of an odd number of SINTs is one more element
+    for f in _scope_walk( src, pr ):
+        if not ( isinstance( f, ast.For ) and isinstance( f.target, ast.Name ) and 'multiple' in ast.unparse( f.iter )):
+            continue
+        mv = f.target.id
+        member = [ a for a in ast.walk( f ) if isinstance( a, ast.Assign ) and isinstance( a.targets[0], ast.Name ) and mv in names_in( a.value )
+                   and any( isinstance( c_, ast.Call ) for c_ in ast.walk( a.value )) ]
+        for a in member:
+            M_ = a.targets[0].id
+            again = [ b for b in ast.walk( f ) if b is not a and isinstance( b, ( ast.Assign, ast.AugAssign )) and any( isinstance( t_, ast.Name ) and t_.id == M_ for t_ in ast.walk( b.targets[0] if isinstance( b, ast.Assign ) else b.target )) ]
+            if again:
+                res.bad( src, again[0], 'Message_Router.produce: the octets of a member are changed after they were rendered ( %s )' % norm_text( ast.unparse( again[0] ))[:70],
+                         'the receiver parses each member to the end of the slice its offsets give: a pad octet behind a member is data of that member ( one more SINT / BOOL element of a Write Tag Fragmented: refused, or written over the element behind the range )' )
+            else:
+                res.ok( src, a, 'the octets of member %s are emitted as rendered' % mv )
     # count field = len( offsets )
     cnts = [ c for c in _scope_walk( src, pr ) if is_call_to( c, 'UINT.produce' ) and c.args and any( pmatch( c.args[0], 'len( %s )' % o ) for o in set( tables )) ]
     if len( cnts ) == n:
@@ -3844,4 +3862,47 @@ def s_phase( ctx ):
                      'the service is a reply code by then: the test against %s is never true and what it guards never runs ( e.g. the refusal of a Read Tag Fragmented offset inside an element: the continuation of a string array is answered, with success, from the wrong element )' % ', '.join( reqs ), func=qn )
         else:
             res.ok( src, sets[0].stmt, '%s: %d comparisons of %s.service behind the reply bit, none against a request code' % ( qn, seen, DATA ))
+    return res
+
+
+
+@rule( 'K-DIRECTION', props=( 'C14', 'C01' ), floor=2 )
+def k_direction( ctx ):
+    """the two directions of a connection keep their own parameters: in the Connection Manager's handlers and producer an assignment to a
+    field of one direction ( <x>.O_T.<f> / <x>.T_O.<f> ) takes its value from the same direction, from both ( the harmonised size class ) or
+    from neither - never from the other direction alone ( fo.T_O.API = fo.O_T.RPI reports the O->T interval as the T->O Actual Packet
+    Interval to an originator that asked for different ones )."""
+    res = Result( 'K-DIRECTION' )
+    src = ctx.src( DEVICE )
+    n = 0
+    def dirs_( e ):
+        out = set()
+        for x in ast.walk( e ):
+            d = dotted( x ) if isinstance( x, ( ast.Attribute, ast.Name )) else None
+            for part in ( d or '' ).split( '.' ):
+                if part in ( 'O_T', 'T_O' ):
+                    out.add( part )
+            if isinstance( x, ast.Constant ) and isinstance( x.value, str ):
+                for part in x.value.split( '.' ):
+                    if part in ( 'O_T', 'T_O' ):
+                        out.add( part )
+        return out
+    cm = src.get( 'Connection_Manager' )
+    for a in ast.walk( cm ):
+        if not isinstance( a, ast.Assign ):
+            continue
+        for tg in a.targets:
+            td = dirs_( tg )
+            if len( td ) != 1:
+                continue
+            n += 1
+            vd = dirs_( a.value )
+            if vd and not ( td & vd ):
+                res.bad( src, a, 'Connection_Manager: %s' % norm_text( ast.unparse( a ))[:80],
+                         'a parameter of the %s direction is taken from the %s direction alone: the reply reports the other direction\'s value ( an originator that asked for different O->T and T->O intervals / sizes is told the wrong one )' % ( sorted( td )[0], sorted( vd )[0] ),
+                         func=src.qualname_of( a ))
+            else:
+                res.ok( src, a, '%s: a %s field from %s' % ( src.qualname_of( a ), sorted( td )[0], ' and '.join( sorted( vd )) or 'direction-neutral values' ))
+    if n < 2:
+        raise AnalysisError( 'K-DIRECTION: direction-specific assignments not found (%d)' % n )
     return res
